@@ -533,12 +533,16 @@ Qed.
    largest u32_table, the words at most the compressor's own buffer sizes *)
 Lemma counts_ok_spec l nc tne tw ww : counts_ok l nc tne tw ww = true ->
   nc <= 64 * 2 ^ l /\ 4 * tne <= 192 * 2 ^ l /\ ww <= safe_length_for_compressed_window_buf (2 ^ l) /\
-  exists b, table_words_bound l tne = Some b /\ tw <= b.
+  (exists b, table_words_bound l tne = Some b /\ tw <= b) /\
+  (ww = 0 \/ 2 ^ l <= 32 * ww) /\ tne <= 16 * tw.
 Proof.
-  unfold counts_ok. cbv zeta. intros H. apply andb_true_iff in H as [H H4]. apply andb_true_iff in H as [H H3].
-  apply andb_true_iff in H as [H1 H2]. apply N.leb_le in H1, H2, H3.
-  destruct (table_words_bound l tne) as [b|]; [|discriminate]. apply N.leb_le in H4. repeat split; try assumption.
-  exists b. auto.
+  unfold counts_ok. cbv zeta. intros H. apply andb_true_iff in H as [H H6]. apply andb_true_iff in H as [H H5].
+  apply andb_true_iff in H as [H H4]. apply andb_true_iff in H as [H H3].
+  apply andb_true_iff in H as [H1 H2]. apply N.leb_le in H1, H2, H3, H6.
+  destruct (table_words_bound l tne) as [b|]; [|discriminate]. apply N.leb_le in H4.
+  apply orb_true_iff in H5. repeat split; try assumption.
+  - exists b. auto.
+  - destruct H5 as [H5|H5]; [left; apply N.eqb_eq; exact H5|right; apply N.leb_le; exact H5].
 Qed.
 
 (* the tail of both readers, ARBITRARY bytes: preamble_ints consistent with the flags and the coupon count,
